@@ -519,7 +519,6 @@ def gen_C13(tier, rng):
 
 def eval_C13(case):
     from lbfgsb import minimize_lbfgsb
-    from lbfgsb.bfgsmats import is_update_X_and_G
     from collections import deque
 
     P = gen.make_problem(case["spec"])
